@@ -52,6 +52,11 @@ type Op struct {
 
 	Meta    map[string]string            `json:"meta,omitempty"`
 	AccMeta map[string]map[string]string `json:"accMeta,omitempty"`
+	// ScriptAccMeta declares what the set_account_meta statements of Script write (the
+	// alphabet's author states it next to the script text). When set, the reference takes the
+	// script's account metadata from here instead of from the result the implementation
+	// returned, so that a merge that loses script keys is not mirrored by the reference.
+	ScriptAccMeta map[string]map[string]string `json:"scriptAccMeta,omitempty"`
 	TSOff   *int64                       `json:"tsOffUs,omitempty"` // explicit timestamp = Base + TSOff µs
 	Ref     string                       `json:"ref,omitempty"`
 	IK      string                       `json:"ik,omitempty"`
